@@ -334,21 +334,22 @@ def run_case(case, ctx):
 def _judge_fit(ctx, model, X, fds, templates, info):
     """Offline checker over the calls recorded during one GlobalHierarchicalModel.fit."""
     fits = list(REC["fit"])
+    by_obj = {}
+    for f_ in fits:
+        by_obj[id(f_["obj"])] = f_  # last fit of each object (independent of the order in which the implementation fits)
     slices = list(REC["slice"])
     deps = list(REC["depfit"])
-    pos = 0
     si = 0
     for i, dist in enumerate(model.distributions):
         fd = fds[i] if fds[i] is not None else {"method": "mle", "weights": None}
         want_m, want_w = fd["method"], fd.get("weights")
         cidx = model.conditional_on[i]
         if cidx is None:
-            if pos >= len(fits):
+            f = by_obj.get(id(dist))
+            if f is None:
                 ctx.inconcl("fit call of an unconditional dimension not observed")
                 return
-            f = fits[pos]
-            pos += 1
-            okopt = f["obj"] is dist and f["method"] == want_m and _same_w(f["weights"], want_w)
+            okopt = f["method"] == want_m and _same_w(f["weights"], want_w)
             ctx.check("c09.options-per-dimension", okopt, f"dimension {i}: fit options (method, weights) are not the ones declared for that dimension", got=[f["method"], _wdesc(f["weights"])], want=[want_m, _wdesc(want_w)], dimension=i, **info)
             ctx.check("c09.marginal-data", f["data"].shape == (len(X),) and np.array_equal(f["data"], X[:, i]), f"dimension {i}: the marginal fit did not receive exactly its own column", dimension=i, **info)
             continue
@@ -356,9 +357,10 @@ def _judge_fit(ctx, model, X, fds, templates, info):
         # interval data does not depend on HOW the implementation obtained the intervals, so if no call was observed
         # (e.g. a cached split) the intervals are recomputed with the configured slicer
         sl = None
-        if si < len(slices) and slices[si]["slicer"] is model.interval_slicers[cidx] and np.array_equal(slices[si]["data"], X[:, cidx]):
-            sl = slices[si]
-            si += 1
+        for cand in slices:
+            if cand["slicer"] is model.interval_slicers[cidx] and np.array_equal(cand["data"], X[:, cidx]):
+                sl = cand
+        if sl is not None:
             ctx.count("c09.slice-call-observed")
         slicer = model.interval_slicers[cidx]
         if sl is not None:
@@ -392,11 +394,10 @@ def _judge_fit(ctx, model, X, fds, templates, info):
             if got.shape != rows.shape or not np.array_equal(np.sort(got), np.sort(rows)):
                 ok_data = False
                 wit = wit or {"interval": k, "boundaries": [float(lo), float(hi)], "n_got": int(got.size), "n_rows_in_interval": int(rows.size)}
-            if pos >= len(fits):
+            f = by_obj.get(id(dist.distributions_per_interval[k])) if k < len(getattr(dist, "distributions_per_interval", [])) else None
+            if f is None:
                 ctx.inconcl("per-interval fit call not observed")
                 return
-            f = fits[pos]
-            pos += 1
             if not (f["method"] == want_m and _same_w(f["weights"], want_w)):
                 ok_opt = False
             if f["exc"] is not None:
